@@ -357,7 +357,9 @@ class BaseState(ABC):
                     if isinstance(self, Polarization)
                     else self.envelope.polarization
                 )
-                out = state.measure()
+                out = state.measure(
+                    separate_measurement=True, destructive=destructive
+                )
                 for k, v in out.items():
                     result[1][k] = v
 
